@@ -300,6 +300,22 @@ func runC03(w *World) {
 	// a quarter of the runs also rewrite the log while the clients write; those runs leave out
 	// the commands of the open C09 findings (RENAME/RENAMENX/JDEL during a rewrite)
 	withShrink := w.knob("shrink", 4) == 0
+	if withShrink && w.knob("bulk", 2) == 1 {
+		// a collection larger than one batch of the rewrite, ahead (in key order) of the
+		// collection the clients write most of their objects into
+		var lp []Cmd
+		for j := 0; j < 40; j++ {
+			lp = append(lp, Cmd{Args: []string{"SET", "k1", fmt.Sprintf("m%02d", j), "POINT", fmt.Sprint(10 + j), "20"}, Pipe: true})
+		}
+		loader := w.addActor(n, "127.0.0.1:50099", lp)
+		loader.onReply = func(op *Op) { rc.hc.onReply(op, loader.end.c.name) }
+		if !w.Drain(60*time.Second, loader.done) {
+			if !w.failed() {
+				w.harnessErr("loader did not finish")
+			}
+			return
+		}
+	}
 	for i := 0; i < nc; i++ {
 		i := i
 		prog := w.program(fmt.Sprintf("p%d", i+1), func(r *rand.Rand) []Cmd {
